@@ -14,13 +14,13 @@ CLAIMED = {
          'Trusts the sanitizers and the target code (harness/fz_*.cpp); time-boxed campaigns are only approximately reproducible from VERIF_SEED, the saved '
          'artefact is the reproducible unit; continue-after-fatal-error (documented undetermined) is not generated.',
          '3 C01'),
- 'C02': ('model-based PBT (Hypothesis): well-formed-by-construction documents + 75 single-constraint mutation operators, pyexpat as second witness',
+ 'C02': ('model-based PBT (Hypothesis): well-formed-by-construction documents + ~80 single-constraint mutation operators, pyexpat as second witness; 3 of 5 cases on a re-used parser object',
          'Each generated document must parse without fatal error under a drawn API x scanner x namespace cell, and each single-constraint mutant '
          '(well-formedness, namespace or encoding violation at a drawn site) must raise >=1 fatal error or documented exception. Verdict-only oracle; '
          'both the generator and pyexpat must agree on the expected verdict.',
          'Trusts pyexpat as XML 1.0 witness; the XML 1.1 lane has the generator only and is limited to clear-cut operators.',
          '3 C02'),
- 'C04': ('differential / metamorphic PBT: read-plan partitions vs one-shot parse, exhaustive alignment sweep around the 16K-char and 48K-byte refill points, source-type differential',
+ 'C04': ('differential / metamorphic PBT: read-plan partitions vs one-shot parse, exhaustive alignment sweep around the 16K-char and 48K-byte refill points, source-type differential; coverage-guided differential fuzzing (libFuzzer target fz_chunk with the comparison inside the target)',
          'The full canonical event dump (incl. error codes and positions) of a parse through a stream that splits the bytes by a drawn read plan, or '
          'from a file / file: URL / stdin / custom InputSource, must equal the in-memory one-shot parse; every construct kind is slid across every offset '
          'around each buffer boundary and must give the same events as with a short filler. No XML model involved.',
@@ -78,9 +78,10 @@ CLAIMED = {
          'After every mutation every live view must equal the model: list contents in document order, iterator reference node and position, range boundary points (valid, ordered, one root), plus C13 invariants.',
          'Trusts the M7 view model; TreeWalker and range content operations are outside the default domain; 5 known findings excluded by construction.',
          '3 C14'),
- 'C15': ('differential PBT (Hypothesis): operation histories on one parser object vs the same call on a freshly constructed parser, computed inside the executor',
+ 'C15': ('differential PBT (Hypothesis): operation histories on one parser object vs the same call on a freshly constructed parser, computed inside the executor; transparency lane (cached / preloaded grammar vs grammar read inline); coverage-guided differential fuzzing (libFuzzer target fz_reuse: parse(A);parse(B) vs fresh parse(B))',
          'Histories of parse / abandoned progressive parse / handler exception / feature change / loadGrammar / pool resets / adoptDocument over colliding documents; every parse and loadGrammar must '
-         'give the same canonical event dump (incl. errors and positions) as on a fresh parser with the same features and cached grammars; adopted documents stay intact.',
+         'give the same canonical event dump (incl. errors and positions) as on a fresh parser with the same features and cached grammars; a parse that uses a grammar cached by loadGrammar or by an earlier parse '
+         'must give the same verdicts, positions, content and defaults as a fresh parser reading the grammar inline; adopted documents stay intact.',
          'Reference is the same build (no XML model); persistent state modelled = feature string + grammars cached via loadGrammar; PSVI excluded (known finding).',
          '3 C15'),
  'C16': ('differential PBT (Hypothesis): pool A vs deserialize(serialize(A)) vs second generation, per-instance event dumps and sorted XSModel/DTD dumps',
